@@ -211,7 +211,13 @@ def ctl_lines(stmts, rng, wc=[0]):
             out.append("${'e%d'}" % s[1])
         elif k == "code":
             m = rng.choice(["", "  ", "    ", "        ", "\t", "\t\t"])
-            out.append("<%%\n%sv = 'c%d'\n%sif v:\n%s    w = v\n%%>\n${w}" % (m, s[1], m, m))
+            if s[1] % 3 == 0:
+                out.append("<%%\n%sv = 'c%d'\n%sif v:\n%s    w = v\n%%>\n${w}" % (m, s[1], m, m))
+            elif s[1] % 3 == 1:
+                # an ordinary string continued with a backslash: the continuation line is string content, not code to re-indent
+                out.append("<%%\n%sv = 'c%d \\\ntail'\n%sif v:\n%s    w = v\n%%>\n${w}" % (m, s[1], m, m))
+            else:
+                out.append("<%%\n%sv = \'\'\'c%d\ntail\'\'\'\n%sif v:\n%s    w = v\n%%>\n${w}" % (m, s[1], m, m))
         elif k == "comment":
             out.append(pad + "## a comment")
         elif k == "silent":
@@ -272,7 +278,7 @@ def ctl_reference(stmts, out):
         elif k == "expr":
             out.append("e%d\n" % s[1])
         elif k == "code":
-            out.append("\nc%d\n" % s[1])
+            out.append("\nc%d%s\n" % (s[1], ["", " tail", "\ntail"][s[1] % 3]))
         elif k == "if":
             for cond, body in s[1]:
                 if {"True": True, "False": False, "f1": True, "f0": False}[cond]:
